@@ -370,6 +370,35 @@ Definition gr_step (st : gr_state) (e : gr_event) : gr_state :=
 
 Definition gr_run (evs : list gr_event) : gr_state := fold_left gr_step evs gr_init.
 
+(* ------------------------------------------------------------------ inbound references over one connection, as a history
+   Broker.yourReferenceByCLID on the connection registered under k: clid -> tub id named by the tracker's URL (None: no URL).
+   A my-reference (clid, url?) for an unknown clid creates a tracker (RemoteReferenceTracker.__init__ applies
+   inbound_url_check; a refused one raises and stores nothing); for a known clid the tracker is returned and what happens to its
+   URL is read from the source (known_clid_url_policy in gen/IdentityGen.v). *)
+Definition rtab := list (Z * option (list Z)).
+
+Fixpoint rt_get (clid : Z) (t : rtab) : option (option (list Z)) :=
+  match t with [] => None | (c, u) :: r => if (c =? clid)%Z then Some u else rt_get clid r end.
+Fixpoint rt_set (clid : Z) (u : option (list Z)) (t : rtab) : rtab :=
+  match t with [] => [] | (c, u0) :: r => if (c =? clid)%Z then (c, u) :: r else (c, u0) :: rt_set clid u r end.
+
+Definition ref_step (k : list Z) (t : rtab) (m : Z * option (list Z)) : rtab :=
+  let '(clid, url) := m in
+  match rt_get clid t with
+  | None => match url with
+            | None => (clid, None) :: t
+            | Some u => if accept_inbound_ref k u then (clid, Some u) :: t else t
+            end
+  | Some old =>
+      match known_clid_url_policy with
+      | KeepUrl => t
+      | SetIfUnset => match url, old with Some u, None => rt_set clid (Some u) t | _, _ => t end
+      | SetAlways => match url with Some u => rt_set clid (Some u) t | None => t end
+      end
+  end.
+
+Definition ref_run (k : list Z) (ms : list (Z * option (list Z))) : rtab := fold_left (ref_step k) ms [].
+
 Arguments cl_id {cert} s.
 Arguments dialled {cert} s.
 Arguments requested {cert} s.
